@@ -356,9 +356,10 @@ class _bin_sizes:
         return dict(self=special_hist(b, c.cls, c.shape))
 
     def invoke(I, fn, a, cfg):
+        nd = len(cfg.shape) > 1        # total_size is an attribute of the N-D classes
         if I is not None:
-            return (I.getattr(a.self, "bin_sizes"), I.getattr(a.self, "densities"))
-        return (a.self.bin_sizes, a.self.densities)
+            return (I.getattr(a.self, "bin_sizes"), I.getattr(a.self, "densities"), I.getattr(a.self, "total_size") if nd else None)
+        return (a.self.bin_sizes, a.self.densities, a.self.total_size if nd else None)
 
     @ensures("true_measure_of_each_bin")
     def _(a, old, result):
@@ -369,6 +370,8 @@ class _bin_sizes:
         cs = [shape_of(result[0]) == shape]
         for pos, cell in enumerate(itertools.product(*[range(n) for n in shape])):
             cs.append(close(sizes[pos], measure(cls, [bs[ax][k] for ax, k in enumerate(cell)])))
+        if result[2] is not None:       # the measure of the covered region is the sum of the bins' measures
+            cs.append(close(result[2], total(sizes)))
         return And(same_hist(old.self, a.self), *cs)
 
     @ensures("densities_times_sizes_are_frequencies")
